@@ -161,8 +161,11 @@ Clone ==
        ELSE /\ R.h \in DOMAIN rcv
             \* (what a clone of a closed handle is, is not promised: either)
             \* (nor what a clone made after every sender handle was dropped is)
+            \* (closing a receiver ends its subscriptions; whether a clone made afterwards gets the
+            \* set it had or none is not promised either)
             /\ \E st \in (IF rcv[R.h].st = "live" /\ DOMAIN stx # {} THEN {"live"} ELSE {"live", "closed"}) :
-                 rcv' = Put(rcv, R.nh, [st |-> st, subs |-> rcv[R.h].subs, box |-> <<>>])
+               \E sb \in (IF rcv[R.h].st = "live" THEN {rcv[R.h].subs} ELSE {rcv[R.h].subs, {}}) :
+                 rcv' = Put(rcv, R.nh, [st |-> st, subs |-> sb, box |-> <<>>])
             /\ UNCHANGED <<stx, aux>>
   /\ UNCHANGED <<cap, fut, kf, devs>> /\ Next1
 
